@@ -292,3 +292,42 @@ def c14_kernel_matrix(ctx, nsup, history):
     w = KI.interpolation_weights
     rep = [sum(w[n] * (sum(float(KI.supports[i][c]) * float(KI.supports[n][c]) for c in range(3)) + a) for n in range(nsup)) for i in range(nsup)]
     ctx.ensure("plain kernel sum reproduces the prescribed values at the support points", eq(rep, [vals[order[i]] for i in range(nsup)]))
+
+
+@ob("C14.kernel_update", kind="B", cases=[c for c in product_cases(kernel=("gaussian", "linear"), nsup=(1, 2, 3, 4), change=("values", "kernel", "values-by-parameters")) if not (c["kernel"] == "linear" and c["nsup"] == 4)],
+    funcs=FUNCS, samples=(1, 2), tol=2e-3,
+    cite="Kernel interpolation reproduces the prescribed values at its distinct, well-conditioned support points (also after the values or the kernel were re-prescribed on a model that was already evaluated)",
+    note="bounded (numba float32 kernels): evaluate, update, evaluate again; supports in lexicographic order (see the recorded finding for unsorted supports)")
+def c14_kernel_update(ctx, kernel, nsup, change):
+    import darsia.utils.kernels as K
+    rng = np.random.default_rng(ctx.rng.randrange(1 << 30))
+    mk = lambda p: K.GaussianKernel(p) if kernel == "gaussian" else K.LinearKernel(p)
+    gram = lambda k, s: np.array([[float(k(s[i], s[j])) for j in range(len(s))] for i in range(len(s))])
+    for _ in range(200):      # precondition "distinct, well-conditioned": kernel matrices of both kernels used have condition number < 200
+        if kernel == "gaussian":
+            sup = np.sort(rng.random((nsup, 1)), axis=0) + np.arange(nsup)[:, None] * 0.8 + rng.random((nsup, 3)) * np.array([0.0, 0.3, 0.3])
+        else:       # <x,y>+a has rank <= 4: near-orthogonal directions keep it well-conditioned
+            q, _ = np.linalg.qr(rng.normal(size=(3, 3)))
+            sup = 1.5 * q[:nsup] + 0.1 * rng.random((nsup, 3))
+            sup = sup[np.argsort(sup[:, 0])]
+        if max(np.linalg.cond(gram(mk(1.0), sup)), np.linalg.cond(gram(mk(1.7), sup))) < 200:
+            break
+    else:
+        ctx.assume(False)
+    v1, v2 = rng.random(nsup), rng.random(nsup) + 1.0
+    KI = darsia.KernelInterpolation(mk(1.0), sup.copy(), v1.copy())
+    first = np.array(KI(sup.copy()))
+    ctx.ensure("fresh model reproduces the prescribed values", bool(np.allclose(first, v1, rtol=2e-3, atol=2e-3)))
+    if change == "values":
+        KI.update(values=v2.copy())
+        want = v2
+    elif change == "values-by-parameters":
+        KI.update_model_parameters(v2.copy(), dofs=["values"])
+        want = v2
+    else:
+        KI.update(kernel=mk(1.7))
+        want = v1
+    got = np.array(KI(sup.copy()))
+    ctx.ensure(f"after update({change}) the evaluated model reproduces the currently prescribed values", bool(np.allclose(got, want, rtol=2e-3, atol=2e-3)))
+    plain = K.BaseKernel.linear_combination(KI.kernel, sup.astype(np.float64), KI.supports.astype(np.float64), np.asarray(KI.interpolation_weights, dtype=np.float64))
+    ctx.ensure("evaluation == plain kernel sum with the current weights", bool(np.allclose(got, plain, rtol=2e-3, atol=2e-3)))
